@@ -257,6 +257,14 @@ fn check_history(ctx: &mut Ctx, h: &History) -> Outcome {
         let mut st = AnyStore::new(ctx, h.file)?;
         es(st.store.import_namespace(nssec.clone().into()))?;
         verif::set_clock(Some(T0 + 3));
+        // two more documents in the same store (ids on both sides are likely): their heads must never be disturbed
+        let mut bystanders = vec![];
+        for d in 1..=2u8 {
+            let other = namespace((h.pools.ns + d) % N_NAMESPACES as u8).clone();
+            let es_: Vec<SignedEntry> = (0..3u8).map(|j| sign(&other, &ESpec { a: j % 2, k: vec![b'o', j], t: T0 + (5 - j) as u64, c: 1 })).collect();
+            populate(&ctx.rt, &mut st.store, &other, &es_)?;
+            bystanders.push(other.id());
+        }
         for (i, s) in h.steps.iter().enumerate() {
             match s {
                 Step::Remote(e) => {
@@ -330,6 +338,16 @@ fn check_history(ctx: &mut Ctx, h: &History) -> Outcome {
             let d = dump(&mut st.store, ns)?;
             if let Err(e) = heads_consistent(&mut st.store, ns, &d) {
                 o.fail("C13/heads", format!("step {i} {:?}: {e}", s));
+                break;
+            }
+            for b in &bystanders {
+                let d = dump(&mut st.store, *b)?;
+                if let Err(e) = heads_consistent(&mut st.store, *b, &d) {
+                    o.fail("C13/heads-of-another-document", format!("step {i} {:?}: {e}", s));
+                    break;
+                }
+            }
+            if o.failed() {
                 break;
             }
         }
